@@ -16,6 +16,9 @@ pub struct SegRunner<'a> {
     pub real: Option<SegC>,
     /// reference: (a, b, id, exp)
     pub vals: Vec<(i64, i64, i64, i64)>,
+    /// every value inserted since the last clear (the logical list of the C03 theorems)
+    pub all_vals: Vec<(i64, i64, i64, i64)>,
+    pub last_q: Option<i64>,
     pub ops: Vec<String>,
     pub hid: usize,
     pub last_t: i64,
@@ -56,7 +59,7 @@ pub fn ref_place(a: u32, b: u32) -> u64 {
 impl<'a> SegRunner<'a> {
     pub fn new(out: &'a mut Out, suite: &str, lo: i64, hi: i64) -> SegRunner<'a> {
         let hid = out.next_hid; out.next_hid += 1;
-        let mut r = SegRunner { out, suite: suite.into(), lo, hi, real: None, vals: vec![], ops: vec![], hid, last_t: i64::MIN, dead: false };
+        let mut r = SegRunner { out, suite: suite.into(), lo, hi, real: None, vals: vec![], all_vals: vec![], last_q: None, ops: vec![], hid, last_t: i64::MIN, dead: false };
         r.ops.push(format!("new {} {}", lo, hi));
         let real = catch_unwind(|| SegC::new(lo, hi));
         let (o, st) = match real {
@@ -84,7 +87,13 @@ impl<'a> SegRunner<'a> {
         r
     }
     fn emit(&mut self, op: &str, pre: &str, o: &str, post: &str) {
-        writeln!(self.out.req, "seg {} | {}", op, pre).unwrap();
+        if pre.starts_with("S ") {
+            let mut lv = format!("LV {} {} {} {}", self.last_q.map_or("none".to_string(), |t| t.to_string()), self.lo, self.hi, self.all_vals.len());
+            for v in &self.all_vals { lv.push_str(&format!(" {} {} {} {}", v.0, v.1, v.2, v.3)); }
+            writeln!(self.out.req, "seg {} | {} | {}", op, pre, lv).unwrap();
+        } else {
+            writeln!(self.out.req, "seg {} | {}", op, pre).unwrap();
+        }
         writeln!(self.out.exp, "out={} | st={} | tr=", o, post).unwrap();
         writeln!(self.out.ctx, "H{} {}", self.hid, self.ops.len() - 1).unwrap();
         self.out.lines += 1;
@@ -116,9 +125,9 @@ impl<'a> SegRunner<'a> {
         if self.dead { return o; }
         let a = &op.a;
         match op.name.as_str() {
-            "insert" => { self.vals.push((a[0], a[1], a[2], a[3])); }
+            "insert" => { self.vals.push((a[0], a[1], a[2], a[3])); self.all_vals.push((a[0], a[1], a[2], a[3])); }
             "clear" => {
-                self.vals.clear(); self.last_t = i64::MIN;
+                self.vals.clear(); self.all_vals.clear(); self.last_q = None; self.last_t = i64::MIN;
                 self.out.eval("C12");
                 let fresh = SegC::new(self.lo, self.hi).unwrap().state().unwrap();
                 if fresh != post { self.fail(&["C12"], "state after clear differs from a new instance", &fresh, &post); }
@@ -131,6 +140,7 @@ impl<'a> SegRunner<'a> {
             "query" => {
                 let (c, d, t, take) = (a[0], a[1], a[2], a[3]);
                 self.last_t = t;
+                self.last_q = Some(t);
                 let (bc, bd) = (self.bucket(c), self.bucket(d));
                 let mut expected: Vec<i64> = self.vals.iter().filter(|v| v.3 >= t && self.bucket(v.0) <= bd && bc <= self.bucket(v.1)).map(|v| v.2).collect();
                 expected.sort();
